@@ -41,7 +41,7 @@ vlib.standard_check({
             "then a drain phase; per cycle valid/ready/payload at every stage boundary. evaluations = stage-cycles replayed on the model; "
             "non-trivial = beats transferred at chain outputs (each checked against the list specification)",
     "trusted_base": ["Lean 4.33 kernel", "axioms: propext, Classical.choice, Quot.sound only (audited per theorem)",
-                     "harness/c16.cpp + Driver/C16.lean line protocol",
+                     "harness/c16.cpp + Driver/C16.lean line protocol (incl. the packing order of data words: packWords/partWord)",
                      "ReferenceSimulator as the semantics of the generated netlists",
                      "FIFO storage abstracted to a list (pointer/memory refinement is C15)"],
     "level_text": "Mealy-machine models of every listed stream stage (payload type arbitrary) proved to implement their list specification for all "
@@ -50,7 +50,6 @@ vlib.standard_check({
                   "the C++ generators by cycle-exact differential simulation at every stage boundary of random chains.",
     "assumptions": ["eventual delivery (Live/compose_live/chain_live) is proved as an extra under explicit fairness and compatibility side conditions; "
                     "stuck chains outside them (regDownstreamBlocking feeding reduceWidth) are counted as observations, lost beats are violations",
-                    "stream FIFO liveness (eventual visibility through the latency pipes) is not proved; its safety, output law and conservation are",
                     "extendWidth/reduceWidth with reset input tied to '0'; ByteEnable meta signal not exercised",
                     "clock-domain-crossing FIFOs, arbiters, field extraction, packet insert/erase outside this property",
                     "stall: output law only under stallOk (condition does not rise while a beat is offered and not taken)"],
